@@ -3,6 +3,7 @@ package harness
 import (
 	"fmt"
 	"math/bits"
+	"pgregory.net/rapid"
 	"testing"
 )
 
@@ -80,6 +81,57 @@ var propC02 = parserProp{
 }
 
 func TestC02(t *testing.T) { propC02.run(t, Kinds) }
+
+// hugeWindowTweak: "no window limit" configurations - the largest window sizes
+// Verify accepts (2^32-8, MaxInt32 for GSAP) and values a little below - with
+// a buffer of at least 64 bytes, blocks shorter than the buffer and mostly
+// small hash tables, so that the offset arithmetic of the parsers is exercised
+// where distance + WindowSize passes 2^32 (2^31).
+func hugeWindowTweak(t *rapid.T, c *PCfg) {
+	top := 1<<32 - 8
+	if c.Kind == "GSAP" {
+		top = 1<<31 - 1
+	}
+	c.WindowSize = top - rapid.SampledFrom([]int{0, 0, 0, 1, 2, 7, 8, 9, 30, 100, 300}).Draw(t, "hwBelow")
+	if c.BufferSize != 0 && c.BufferSize < 64 {
+		c.BufferSize += 64
+	}
+	if c.BufferSize == 0 {
+		c.BufferSize = 256
+	}
+	if c.ShrinkSize >= c.BufferSize {
+		c.ShrinkSize = 0
+	}
+	if rapid.IntRange(0, 2).Draw(t, "hwBlk") > 0 {
+		c.BlockSize = rapid.IntRange(8, maxInt(c.BufferSize/2, 9)).Draw(t, "hwBlkSize")
+	}
+	if rapid.IntRange(0, 2).Draw(t, "hwBits") > 0 {
+		hb := rapid.IntRange(1, 6).Draw(t, "hwHashBits")
+		if c.HashBits != 0 || c.Kind == "HP" || c.Kind == "BHP" || c.Kind == "BUP" {
+			c.HashBits = hb
+		}
+		if c.Kind == "DHP" || c.Kind == "BDHP" {
+			c.HashBits1, c.HashBits2 = hb, rapid.IntRange(1, 6).Draw(t, "hwHashBits2")
+		}
+	}
+}
+
+var propC02Huge = func() parserProp {
+	pp := propC02
+	pp.tweak = hugeWindowTweak
+	pp.opts = func(kind string) histOpts {
+		o := defaultHistOpts()
+		o.parseNil = 1
+		o.ntl = 50
+		o.ntlPair = 6
+		o.uniformPct = 40
+		o.tinyPct = 0
+		return o
+	}
+	return pp
+}()
+
+func TestC02Huge(t *testing.T) { propC02Huge.run(t, Kinds) }
 
 // ---------------------------------------------------------------- C03
 
